@@ -7,6 +7,8 @@ def cells(tier, klass="C"):
     weekday/leap cycle 2016..2043."""
     if tier == "thorough":
         return [(y, m) for y in range(2016, 2044) for m in range(1, 13)]
+    if klass == "B":   # cheap obligations: every month of a common and of a leap year
+        return [(y, m) for y in (2023, 2024) for m in range(1, 13)]
     return [(2024, 2), (2023, 2), (2023, 12), (2024, 1), (2023, 4), (2024, 12)]
 
 
